@@ -538,6 +538,7 @@ class Evaluator:
         self.localdefs: Dict[str, ast.FunctionDef] = {}
         self._via_callable = False
         self.inline_class_consts = False   # opt-in: read ``self.X`` as the class-level constant X of a plain class
+        self.ambiguous: List[str] = []     # properties read through a field's declared type although a subclass defines them differently
         global _ENUM_VALUE_HOOK
         _ENUM_VALUE_HOOK = self._enum_value   # lets subst() fold <member>.value once a symbol was replaced by a member
 
@@ -1563,15 +1564,18 @@ class Evaluator:
             p = bc.resolve(name)
             qn = p.qualname
             overridden = False
-            if base[0] == "attr":
+            if base[0] == "attr" and "abstractmethod" not in p.decorators:
                 # the receiver is a field of declared type bc: the object held there may be of a subclass that defines the property differently
                 # (IRelationLink.x read on a MultiRelationLink) -- then the declared class's body is not what runs
                 try:
                     overridden = any(name in k_.properties and k_.resolve(name) is not p for k_ in self.model.subclasses(bc))
                 except Exception:
                     overridden = False
+            if overridden and f"{bc.name}.{name}" not in self.ambiguous:
+                # inlined with the declared class's body all the same (the rules are written for it); a rule whose verdict hangs on this read asks self.ambiguous
+                self.ambiguous.append(f"{bc.name}.{name}")
             if (fr.depth < self.max_depth and qn not in self.opaque and "abstractmethod" not in p.decorators
-                    and not _has_loop(p.node) and not overridden):
+                    and not _has_loop(p.node)):
                 try:
                     v = self.inline(p, {}, base, bc, fr)
                     return v
@@ -1617,6 +1621,18 @@ class Evaluator:
                     kwargs.append(("**", v))
             else:
                 kwargs.append((kw.arg, self.expr(kw.value, fr)))
+        if isinstance(e.func, ast.Name) and kwargs and not any(a[0] == "star" for a in args) and not any(k_ == "**" for k_, _ in kwargs):
+            # a local name bound to ``partial(g, *a, **k)`` called with keywords: g(*a, *args, **k, **kwargs)
+            pc_ = fr.env.get(e.func.id)
+            while pc_ is not None and pc_[0] == "var" and len(pc_) == 4:
+                pc_ = pc_[3]
+            if pc_ is not None and pc_[0] == "call" and pc_[2] and (pc_[1] in ("partial", ("global", "partial")) or (isinstance(pc_[1], tuple) and pc_[1][-1:] == ("partial",))) \
+                    and pc_[2][0][0] == "fn" and not any(k_ == "**" for k_, _ in pc_[3]):
+                cands_ = [x for x in self.model.all_functions() if x.qualname == pc_[2][0][1]]
+                if len(cands_) == 1 and cands_[0].kind in ("function", "staticmethod"):
+                    merged_ = dict(pc_[3])
+                    merged_.update(dict(kwargs))
+                    return self.call_function(cands_[0], None, None, list(pc_[2][1:]) + list(args), list(merged_.items()), fr)
         if isinstance(e.func, ast.Name) and len(args) >= 1 and not kwargs and not any(a[0] == "star" for a in args):
             callee = fr.env.get(e.func.id)
             if callee is None and e.func.id not in fr.env:
